@@ -92,7 +92,9 @@ def reader_algorithm(ctx):
     if ph is None or not isinstance(table, dict):
         raise Unrecognised("C11.B1", c, "placeholder / repl_map not found")
     # statement sequence: text = text.replace('\\\\', ph); for k in repl_map: text = text.replace(k, repl_map[k]); return text.replace(ph, '\\')
-    stmts = [s for s in f.body if not (isinstance(s, ast.Expr) and isinstance(s.value, ast.Constant))]
+    from ..core import significant_body
+
+    stmts = significant_body(f)
     seq = [src(s).replace("\n", " ") for s in stmts]
     want_tail = [
         "text = text.replace('\\\\\\\\', backslash_escape_placeholder)",
